@@ -981,6 +981,7 @@ func (r *Reader) parseBodyElementsInOrder(data []byte) error {
 	var inBody bool
 	var depth int // nesting depth below <w:body>; its direct children are at depth 1
 	var paraIndex, tableIndex int
+	var containers int // open transparent block containers (w:sdt, w:sdtContent, ...)
 
 	for {
 		token, err := decoder.Token()
@@ -999,11 +1000,40 @@ func (r *Reader) parseBodyElementsInOrder(data []byte) error {
 				continue
 			}
 
+			// Block-level content controls, custom XML and smart tags are
+			// transparent containers: the paragraphs and tables inside their
+			// content are body content (Word's cover pages and tables of
+			// contents live in a w:sdt). They are not in the unmarshalled
+			// Paragraphs/Tables slices, so they are decoded here, in place.
+			if depth == 0 {
+				switch t.Name.Local {
+				case "sdt", "sdtContent", "customXml", "smartTag":
+					containers++
+					continue
+				}
+				if containers > 0 {
+					switch t.Name.Local {
+					case "p":
+						var p paragraphXML
+						if err := decoder.DecodeElement(&p, &t); err == nil {
+							r.document.Body.Elements = append(r.document.Body.Elements, bodyElement{Type: "paragraph", Paragraph: &p})
+						}
+						continue
+					case "tbl":
+						var tbl tableXML
+						if err := decoder.DecodeElement(&tbl, &t); err == nil {
+							r.document.Body.Elements = append(r.document.Body.Elements, bodyElement{Type: "table", Table: &tbl})
+						}
+						continue
+					}
+				}
+			}
+
 			// Only direct children of the body are body-level elements (the
 			// unmarshalled Paragraphs/Tables slices hold exactly those);
 			// paragraphs and tables nested in table cells are not.
 			depth++
-			if depth != 1 {
+			if depth != 1 || containers > 0 {
 				continue
 			}
 
@@ -1028,7 +1058,9 @@ func (r *Reader) parseBodyElementsInOrder(data []byte) error {
 			}
 		case xml.EndElement:
 			if inBody {
-				if depth == 0 {
+				if depth == 0 && containers > 0 {
+					containers--
+				} else if depth == 0 {
 					inBody = false
 				} else {
 					depth--
@@ -1232,8 +1264,9 @@ func (r *Reader) processElementsInOrder() {
 
 	// Process elements in order
 	r.elements = make([]parsedElement, 0, len(r.document.Body.Elements))
-	r.paragraphs = make([]parsedParagraph, 0, len(r.document.Body.Paragraphs))
-	r.tables = make([]ParsedTable, 0, len(r.document.Body.Tables))
+	// capacity covers every element: r.elements keeps pointers into these slices
+	r.paragraphs = make([]parsedParagraph, 0, len(r.document.Body.Elements))
+	r.tables = make([]ParsedTable, 0, len(r.document.Body.Elements))
 
 	for _, elem := range r.document.Body.Elements {
 		switch elem.Type {
